@@ -102,8 +102,75 @@ KindRoots == { L(<< N("Product", << X, vc >>), N("Sum", << X, KI(2) >>) >>) : X 
         \cup { L(<< N("Product", << P, vc >>), N("Sum", << Pc, KI(2) >>) >>),      \* commuted twins
                L(<< N("Product", << S, vc >>), N("Sum", << Sc, KI(2) >>) >>),
                L(<< B("Quotient", Q, Qs) >>), L(<< N("Sum", << C2, C2s >>) >>) }  \* not twins
-TagRoots == IF Tier = "neg" THEN TagRootsNeg
-            ELSE KindRoots \cup (IF Tier = "quick" THEN TagRootsQuick ELSE TagRootsThorough)
+
+(***************************************************************************)
+(* Round 2: a repeated subexpression in EVERY child position of EVERY node *)
+(* kind, the siblings being leaves the tagger leaves alone.  The tagger    *)
+(* rebuilds a node through the handler of the node's kind, and every       *)
+(* handler decides on its own whether "nothing changed" - so the wrapper   *)
+(* placed around a child survives or is lost per (kind, position).         *)
+(* Host templates: every node kind the stock mappers handle, also the ones *)
+(* that are no operations of the statement (they carry operations).        *)
+(* Puts(t): t with exactly one node below the root replaced by a typed     *)
+(* hole ("F": the function position of a call, "X": any other position),   *)
+(* at any depth (the index tuple of a subscript, the comparison in a       *)
+(* condition).                                                             *)
+(***************************************************************************)
+oo == V("o")  mm == V("m")
+HostTemplates ==
+  { Call(ff, << va, vc >>), Call(gg, << vc >>), Call(ff, << >>), Call(ff, << va, KI(2), vc >>),
+    Call(Call(gg, << va >>), << vc >>),             \* a call in the function position of a call
+    N("Sum", << va, KI(1), vc >>), B("Power", KI(2), va), CSE(va, "", "pymbolic_global"),
+    CallKw(ff, << va >>, << KwArg("k1", vc) >>),
+    CallKw(gg, << >>, << KwArg("k2", vc), KwArg("k1", va) >>),
+    B("Sub", tt, KI(1)), B("Sub", mm, N("Tup", << KI(0), KI(1) >>)),
+    Look(oo, "p"),
+    IfE(Cmp(va, "<", vc), vb, vc), Cmp(va, "<=", vc),
+    N("LogOr", << va, vc >>), N("LogAnd", << va, vc >>), U("LogNot", va),
+    N("Min", << va, vc >>), N("Max", << vc, va >>),
+    N("BitOr", << va, vc >>), N("BitXor", << va, vc >>), N("BitAnd", << va, vc >>), U("BitNot", va),
+    B("LShift", va, KI(1)), B("RShift", va, KI(1)),
+    N("Sum", << va, vc >>), N("Product", << vc, va >>), B("Quotient", va, vc),
+    B("FloorDiv", va, vc), B("Remainder", va, vc), B("Power", va, KI(2)),
+    CSE0(va), CSE(va, "w", "pymbolic_expr") }
+HostTemplatesNeg == { Call(ff, << va, vc >>), CallKw(ff, << va >>, << KwArg("k1", vc) >>),
+                      B("Sub", tt, KI(1)), IfE(Cmp(va, "<", vc), vb, vc), B("Quotient", va, vc) }
+XH == HoleT("X")  FH == HoleT("F")
+RECURSIVE Puts(_)
+Puts(t) ==
+    LET ks == Kids(t) IN
+    UNION { { WithKids(t, [ks EXCEPT ![i] = IF t.t \in {"Call", "CallKw"} /\ i = 1 THEN FH ELSE XH]) }
+            \cup { WithKids(t, [ks EXCEPT ![i] = p]) : p \in Puts(ks[i]) } : i \in 1..Len(ks) }
+\* the same skeleton with other leaves as siblings
+RECURSIVE Ren(_)
+Ren(e) == IF e.t = "Var" THEN (IF e.name = "a" THEN vc ELSE IF e.name = "c" THEN vb ELSE e)
+          ELSE WithKids(e, [i \in 1..Len(Kids(e)) |-> Ren(Kids(e)[i])])
+\* what is repeated: operations of every taggable kind; in the function position of a
+\* call also a function-valued conditional that carries a repeated operation (the call
+\* then evaluates without raising)
+FX == IfE(Cmp(S, "<", vc), ff, gg)
+XPool == IF Tier = "thorough" THEN { S, P, Q, C2, Pw, B("Remainder", va, vb), W0 } ELSE { S, C2 }
+XFor(s) == IF FirstHoleTy(s) = "F" THEN XPool \cup { FX } ELSE XPool
+Partner(X) == IF X = FX THEN S ELSE X
+Twin(X) == IF X = S THEN Sc ELSE IF X = P THEN Pc ELSE X
+PosLists(s, X) ==
+    LET h  == FillFirst(s, X)
+        h2 == FillFirst(Ren(s), X)
+    IN { L(<< h, Partner(X) >>),                                  \* host and the bare repeat
+         L(<< N("Sum", << h, KI(1) >>), N("Product", << h2, KI(2) >>) >>) }   \* two hosts
+       \cup (IF Tier = "thorough" THEN { L(<< Twin(Partner(X)), h >>), L(<< h, h2, vc >>) } ELSE {})
+PosRoots(tmpls) == UNION { UNION { PosLists(s, X) : X \in XFor(s) } : s \in UNION { Puts(t) : t \in tmpls } }
+PosRootsNeg == { L(<< FillFirst(s, S), S >>) : s \in UNION { Puts(t) : t \in HostTemplatesNeg } }
+\* hole-filled hosts: whatever the pools hold, in a host position next to a pool element
+PosHoleRoots ==
+    IF Tier = "quick"
+    THEN { L(<< Call(A, << vc >>), A >>), L(<< IfE(Cmp(A, "<", vc), Bh, vb), A >>),
+           L(<< B("Sub", tt, A), Bh >>), L(<< Call(IfE(Cmp(A, "<", vc), ff, gg), << va >>), Bh >>) }
+    ELSE { L(<< FillFirst(s, M), Bh >>) : s \in UNION { Puts(t) : t \in HostTemplates } }
+         \cup { L(<< Call(IfE(Cmp(M, "<", vc), ff, gg), << Cc >>), M >>) }
+TagRoots == IF Tier = "neg" THEN TagRootsNeg \cup PosRootsNeg
+            ELSE KindRoots \cup PosRoots(HostTemplates) \cup PosHoleRoots
+                 \cup (IF Tier = "quick" THEN TagRootsQuick ELSE TagRootsThorough)
 
 \* ---- the helper cells -----------------------------------------------------
 Arr1 == [t |-> "Arr", shape |-> << 3 >>, c |-> << S, KI(2), va >>]
@@ -128,6 +195,12 @@ RandRoots == { L(<< A >>), L(<< A, A >>), L(<< A, A, A >>) }
 \* astronomically large integers)
 RandSkel == Ops2(A, A) \cup (Ops2More(A, A) \ { B("Power", A, A) }) \cup Ops1(A)
             \cup { CSE0(A), CSE(A, "r", EvalScope), CSE(A, "", "pymbolic_expr") }
+            \* round 2: hosts that are no operations themselves, every position a hole
+            \cup { Call(A, << vc >>), Call(IfE(Cmp(A, "<", vc), ff, gg), << A >>),
+                   CallKw(ff, << A >>, << KwArg("k1", A) >>), CallKw(A, << >>, << KwArg("k2", va) >>),
+                   IfE(Cmp(A, "<", A), A, A), IfE(A, vb, A), B("Sub", tt, A), B("Sub", A, KI(1)),
+                   B("Sub", mm, N("Tup", << KI(0), A >>)), Look(A, "p"),
+                   N("LogOr", << A, A >>), N("LogAnd", << A, A >>), N("Max", << A, vc >>) }
 
 Init == /\ fuel = (IF Mode = "rand" THEN 6 ELSE 0)
         /\ IF Mode = "rand" THEN cas \in { TagCase(r) : r \in RandRoots }
@@ -163,12 +236,17 @@ ModelData(ins) ==
         d == IF \E i \in 1..Len(vals) : vals[i] \notin {"OK", "SKIP"}
              THEN [v |-> "value", pat |-> vals[CHOOSE i \in 1..Len(vals) : vals[i] \notin {"OK", "SKIP"}]]
              ELSE IF ~NoWrapperOnWrapper(ins, outs) THEN [v |-> "wrapper-on-wrapper", pat |-> ""]
+             ELSE IF ~InScope(ins) THEN
+                (IF sbad # {} \/ obad # {} THEN [v |-> "OK", pat |-> "out-of-scope-not-shared"]
+                 ELSE [v |-> "OK", pat |-> ""])
              ELSE IF sbad # {} THEN [v |-> "not-shared", pat |-> SharingPattern(ins, sbad)]
              ELSE IF obad # {} THEN [v |-> "RepeatedOpOnce", pat |-> SharingPattern(ins, obad)]
              ELSE [v |-> "OK", pat |-> ""]
+        \* conditionals skip operands: there the event-level predicate sees less than the tree
+        lazy == \E j \in 1..Len(outs) : \E n \in SubExprs(outs[j]) : n.t \in {"If", "LogOr", "LogAnd"}
     IN [inv |-> /\ run.bad = ""
                 /\ AllInstInv(I)
-                /\ ((AllReturned(evs) /\ obad = {}) => sbad = {}),
+                /\ ((AllReturned(evs) /\ obad = {} /\ ~lazy) => sbad = {}),
         d |-> d]
 
 \* negative controls only: the transcription meets the property up to the one
@@ -198,7 +276,8 @@ ModelCacheInv_Emit ==
       THEN LET m == ModelData(Ins) IN
            /\ m.inv
            /\ PrintT(ToJson([kind |-> "tag", ins |-> Ins]))
-           /\ (m.d.v = "OK" \/ PrintT(ToJson([design |-> m.d.v, pat |-> m.d.pat, dins |-> Ins])))
+           /\ ((m.d.v = "OK" /\ m.d.pat = "")
+               \/ PrintT(ToJson([design |-> m.d.v, pat |-> m.d.pat, dins |-> Ins])))
       ELSE PrintT(ToJson([kind |-> "wrap", fn |-> cas.fn, arg |-> cas.arg,
                           prefix |-> cas.prefix, scope |-> cas.scope]))
 
